@@ -35,30 +35,40 @@ package upstream
 // ---- C16: a successful Connect leaves a connection
 //@ func (ups *Socket) Connect
 //@   implements (github.com/bokysan/socketace/v2/internal/client/upstream.Upstream).Connect
+//@   property C05, C04
+//@   callsite NewClientConnection#1 (arg1 cert.TlsConfig) require arg1 == manager                       :session_handshake_gets_the_callers_certificate_manager
 //@   property C05, C04, C16
 //@   ensures err == nil ==> ups.Connection != nil                                                    :connected_means_connection
 //@   property C04, C16
 //@   ensures err == nil && mustSecure ==> sessionOf(ups.Connection) != nil && sessionOf(ups.Connection).Secure()   :required_security_is_met_or_no_session
 //@ func (ups *Http) Connect
 //@   implements (github.com/bokysan/socketace/v2/internal/client/upstream.Upstream).Connect
+//@   property C05, C04
+//@   callsite NewClientConnection#1 (arg1 cert.TlsConfig) require arg1 == manager                       :session_handshake_gets_the_callers_certificate_manager
 //@   property C05, C04, C16
 //@   requires webScheme(ups.Address.Scheme)
 //@   ensures err == nil ==> ups.Connection != nil                                                    :connected_means_connection
 //@   property C04, C16
 //@   ensures err == nil && mustSecure ==> sessionOf(ups.Connection) != nil && sessionOf(ups.Connection).Secure()   :required_security_is_met_or_no_session
 //@ func (ups *Packet) ConnectPacket
+//@   property C05, C04
+//@   callsite NewClientConnection#1 (arg1 cert.TlsConfig) require arg1 == manager                       :session_handshake_gets_the_callers_certificate_manager
 //@   property C05, C04, C16
 //@   ensures err == nil ==> ups.Connection != nil                                                    :connected_means_connection
 //@   property C04, C16
 //@   ensures err == nil && mustSecure ==> sessionOf(ups.Connection) != nil && sessionOf(ups.Connection).Secure()   :required_security_is_met_or_no_session
 //@ func (ups *Dns) Connect
 //@   implements (github.com/bokysan/socketace/v2/internal/client/upstream.Upstream).Connect
+//@   property C05, C04
+//@   callsite NewClientConnection#1 (arg1 cert.TlsConfig) require arg1 == manager                       :session_handshake_gets_the_callers_certificate_manager
 //@   property C05, C04, C16
 //@   ensures err == nil ==> ups.Connection != nil                                                    :connected_means_connection
 //@   property C04, C16
 //@   ensures err == nil && mustSecure ==> sessionOf(ups.Connection) != nil && sessionOf(ups.Connection).Secure()   :required_security_is_met_or_no_session
 //@ func (ups *InputOutput) Connect
 //@   implements (github.com/bokysan/socketace/v2/internal/client/upstream.Upstream).Connect
+//@   property C05, C04
+//@   callsite NewClientConnection#1 (arg1 cert.TlsConfig) require arg1 == manager                       :session_handshake_gets_the_callers_certificate_manager
 //@   property C04, C16
 //@   ensures err == nil ==> ups.Connection != nil                                                    :connected_means_connection
 //@   ensures err == nil && mustSecure ==> sessionOf(ups.Connection) != nil && sessionOf(ups.Connection).Secure()   :required_security_is_met_or_no_session
@@ -144,6 +154,7 @@ package upstream
 //@   ensures err == nil ==> (forall i :: forall j :: 0 <= i && i < j && j < len(old(ul.Data)) && G_attempts(old(ul.Data)[j]) != old(G_attempts(ul.Data[j])) ==> !spec_sameref(old(ul.Data)[i], ul.connection))    :stops_at_the_first_success
 //@   ensures forall j :: 0 <= j && j < len(old(ul.Data)) ==> G_attempts(old(ul.Data)[j]) == old(G_attempts(ul.Data[j])) || G_attempts(old(ul.Data)[j]) == old(G_attempts(ul.Data[j])) + 1    :each_upstream_tried_at_most_once
 //@   ensures err == nil ==> ul.connection != nil && ul.session != nil                                :connected_with_a_session
+//@   callsite Connect#1 (arg0 cert.TlsConfig, arg1 bool) require arg0 == manager && arg1 == ul.MustSecure                 :every_attempt_carries_the_security_requirement
 //@   callsite creteSession#1 (a Upstream, iter int, rng []Upstream) require 0 <= iter && iter < len(rng) && rng[iter] == a && ul.connection == a && spec_sameslice(rng, old(ul.Data))     :settles_on_the_listed_upstream_just_tried
 //@   ensures err == nil && old(ul.MustSecure) ==> sessionOf(connOf(ul.connection)) != nil && sessionOf(connOf(ul.connection)).Secure()   :settled_upstream_meets_the_security_requirement
 //@   ensures err != nil ==> ul.connection == nil || ul.connection == old(ul.connection)               :no_connection_on_failure
